@@ -30,11 +30,14 @@ type provCtx struct {
 	signCasts bool
 	// seqOffset: reads performed by the caller before the inlined helper was called
 	seqOffset int
+	// keepZeros: zero constants on phi edges are real alternatives (writer side: a value forced
+	// to zero on some path), not the zero value of an unset named result
+	keepZeros bool
 	seen      map[ssa.Value]bool
 }
 
 func (c *provCtx) child(env map[*ssa.Parameter]string) *provCtx {
-	return &provCtx{p: c.p, env: env, depth: c.depth + 1, leaf: c.leaf, noInline: c.noInline, calls: c.calls, signCasts: c.signCasts, seqOffset: c.seqOffset, seen: map[ssa.Value]bool{}}
+	return &provCtx{p: c.p, env: env, depth: c.depth + 1, leaf: c.leaf, noInline: c.noInline, calls: c.calls, signCasts: c.signCasts, seqOffset: c.seqOffset, keepZeros: c.keepZeros, seen: map[ssa.Value]bool{}}
 }
 
 func alts(ss []string) string {
@@ -188,7 +191,7 @@ func (c *provCtx) val(v ssa.Value) string {
 		}
 		var as []string
 		for i, e := range x.Edges {
-			if isZeroSSA(e) {
+			if isZeroSSA(e) && !(c.keepZeros && isIntType(x.Type())) {
 				continue // the zero value of an unset named result
 			}
 			as = append(as, c.val(e)+c.guardOf(x.Block().Preds[i]))
